@@ -132,6 +132,18 @@ CHECKS = {
              "correspondence run, not proved; line classification by the parser's lambdas is rendered by the harness (typed lines).",
         technique="Lean 4: codec bijection (omega/decide), per-step and fold-invariant theorems on the index maintenance; differential correspondence of full views",
         ref='§4 C16'),
+    'C18': dict(
+        text=("C18_reuse (if an existing entry is usable for the request — none requested: any entry that denotes an endpoint; requested: first word "
+              "equal — nothing is sent and the endpoint is one such an entry denotes), C18_add (otherwise exactly one SETCONF whose SOCKSPort values are "
+              "every existing entry exactly as reported, option words included, in order, followed by the new one), C18_config (the same for "
+              "TorConfig.create_socks_endpoint, exact first-word match), C18_fallback / C18_fallback_all_failed (ports of the generated "
+              "socks_ports_to_try in order, move on only after a ConnectError, first success returned, other exceptions propagate, last error "
+              "reported). Correspondence: the whole product of store shapes x requests through both APIs against the fake Tor, SETCONF parsed by the "
+              "kvline oracle and compared with the GETCONF answer; every outcome sequence of the fallback on MemoryReactor."),
+        note=NOTE_COMMON + "Which of several usable entries is picked depends on Python set iteration order and is compared as membership in the model's candidate set. "
+             "An existing entry 'auto'/'0' with no port requested through TorConfig.create_socks_endpoint is outside the quantifier (the port Tor chose cannot be read off the line).",
+        technique="Lean 4: decision theorems on the port-selection functions + induction over the fallback list (generated constant); differential correspondence (exhaustive product)",
+        ref='§4 C18'),
     'C20': dict(
         text=("C20_refines: for EVERY history of ADDRMAP lines (all token forms: local-time field, EXPIRES=, NEVER, <error>, extra flags) and clock "
               "advances, with any expiry offset past or future, the model's map equals the spec's (Tor's latest mapping per name under the clock: "
